@@ -366,6 +366,394 @@ pub fn link_readers() {
     }
 }
 
+
+// =============================================================== network layer
+
+pub fn touch_ipv4_header(outer: &[u8], h: &Ipv4HeaderSlice) {
+    within!(outer, h.slice());
+    within!(outer, h.options());
+    sink(h.version());
+    sink(h.ihl());
+    sink(h.dcp());
+    sink(h.ecn());
+    sink(h.total_len());
+    sink(h.payload_len());
+    sink(h.identification());
+    sink(h.dont_fragment());
+    sink(h.more_fragments());
+    sink(h.fragments_offset());
+    sink(h.ttl());
+    sink(h.protocol());
+    sink(h.header_checksum());
+    sink(h.source());
+    sink(h.destination());
+    sink(h.source_addr());
+    sink(h.destination_addr());
+    sink(h.is_fragmenting_payload());
+    sink(h.to_header());
+}
+
+pub fn touch_auth(outer: &[u8], a: &IpAuthHeaderSlice) {
+    within!(outer, a.slice());
+    within!(outer, a.raw_icv());
+    sink(a.next_header());
+    sink(a.spi());
+    sink(a.sequence_number());
+}
+
+pub fn touch_raw_ext(outer: &[u8], r: &Ipv6RawExtHeaderSlice) {
+    within!(outer, r.slice());
+    within!(outer, r.payload());
+    sink(r.next_header());
+}
+
+pub fn touch_frag(outer: &[u8], f: &Ipv6FragmentHeaderSlice) {
+    within!(outer, f.slice());
+    sink(f.next_header());
+    sink(f.fragment_offset());
+    sink(f.more_fragments());
+    sink(f.identification());
+    sink(f.is_fragmenting_payload());
+    sink(f.to_header());
+}
+
+pub fn touch_ip_payload(outer: &[u8], p: &IpPayloadSlice) {
+    within!(outer, p.payload);
+    sink(p.ip_number);
+    sink(p.fragmented);
+    sink(p.len_source);
+}
+
+pub fn touch_lax_ip_payload(outer: &[u8], p: &LaxIpPayloadSlice) {
+    within!(outer, p.payload);
+    sink(p.ip_number);
+    sink(p.fragmented);
+    sink(p.len_source);
+    sink(p.incomplete);
+}
+
+/// walks the extension chain to exhaustion; returns the number of headers yielded
+pub fn touch_ipv6_exts(outer: &[u8], e: &Ipv6ExtensionsSlice) -> usize {
+    within!(outer, e.slice());
+    sink(e.is_fragmenting_payload());
+    sink(e.first_header());
+    sink(e.is_empty());
+    let mut n = 0usize;
+    let mut it = e.clone().into_iter();
+    while let Some(x) = it.next() {
+        match x {
+            Ipv6ExtensionSlice::HopByHop(r)
+            | Ipv6ExtensionSlice::Routing(r)
+            | Ipv6ExtensionSlice::DestinationOptions(r) => touch_raw_ext(outer, &r),
+            Ipv6ExtensionSlice::Fragment(f) => touch_frag(outer, &f),
+            Ipv6ExtensionSlice::Authentication(a) => touch_auth(outer, &a),
+        }
+        n += 1;
+        // C02: every yielded header consumes at least 8 bytes of the chain
+        assert!(n * 8 <= e.slice().len());
+    }
+    n
+}
+
+pub fn touch_ipv6_header(outer: &[u8], h: &Ipv6HeaderSlice) {
+    within!(outer, h.slice());
+    sink(h.version());
+    sink(h.traffic_class());
+    sink(h.ecn());
+    sink(h.dscp());
+    sink(h.flow_label());
+    sink(h.payload_length());
+    sink(h.next_header());
+    sink(h.hop_limit());
+    sink(h.source());
+    sink(h.destination());
+    sink(h.source_addr());
+    sink(h.destination_addr());
+    sink(h.to_header());
+}
+
+pub fn ipv4_header_slice() {
+    let t = Tight::<64>::new(any_le(64));
+    let s = t.slice();
+    match Ipv4HeaderSlice::from_slice(s) {
+        Ok(h) => {
+            witness!(h.options().len() == 40, "ok_max_options");
+            touch_ipv4_header(s, &h);
+        }
+        Err(_) => {
+            witness!(true, "err");
+        }
+    }
+    match Ipv4Header::from_slice(s) {
+        Ok((h, rest)) => {
+            within!(s, rest);
+            sink(h.header_len());
+        }
+        Err(_) => {}
+    }
+}
+
+pub fn ipv4_slice() {
+    let t = Tight::<44>::new(any_le(44));
+    let s = t.slice();
+    match Ipv4Slice::from_slice(s) {
+        Ok(ip) => {
+            witness!(ip.extensions().auth.is_some() && ip.payload().payload.len() > 0, "ok_auth_payload");
+            witness!(ip.header().options().len() > 0, "ok_options");
+            touch_ipv4_header(s, &ip.header());
+            if let Some(a) = ip.extensions().auth {
+                touch_auth(s, &a);
+            }
+            sink(ip.extensions().is_empty());
+            touch_ip_payload(s, ip.payload());
+            sink(ip.payload_ip_number());
+            sink(ip.is_payload_fragmented());
+        }
+        Err(_) => {
+            witness!(true, "err");
+        }
+    }
+}
+
+pub fn lax_ipv4_slice() {
+    let t = Tight::<44>::new(any_le(44));
+    let s = t.slice();
+    match LaxIpv4Slice::from_slice(s) {
+        Ok((ip, stop)) => {
+            witness!(stop.is_some(), "ok_stop_err");
+            witness!(ip.payload().incomplete, "ok_incomplete");
+            touch_ipv4_header(s, &ip.header());
+            if let Some(a) = ip.extensions().auth {
+                touch_auth(s, &a);
+            }
+            touch_lax_ip_payload(s, ip.payload());
+            sink(ip.payload_ip_number());
+            sink(ip.is_payload_fragmented());
+            core::mem::forget(stop);
+        }
+        Err(_) => {
+            witness!(true, "err");
+        }
+    }
+}
+
+pub fn ipv4_exts() {
+    let t = Tight::<28>::new(any_le(28));
+    let s = t.slice();
+    let start = IpNumber(any());
+    match Ipv4ExtensionsSlice::from_slice(start, s) {
+        Ok((e, _n, rest)) => {
+            witness!(e.auth.is_some(), "ok_auth");
+            within!(s, rest);
+            if let Some(a) = e.auth {
+                touch_auth(s, &a);
+            }
+        }
+        Err(_) => {}
+    }
+    let (e, _n, rest, err) = Ipv4ExtensionsSlice::from_slice_lax(start, s);
+    witness!(err.is_some(), "lax_err");
+    within!(s, rest);
+    if let Some(a) = e.auth {
+        touch_auth(s, &a);
+    }
+    core::mem::forget(err);
+}
+
+pub fn auth_slice() {
+    let t = Tight::<28>::new(any_le(28));
+    let s = t.slice();
+    match IpAuthHeaderSlice::from_slice(s) {
+        Ok(a) => {
+            witness!(a.raw_icv().len() == 16, "ok_icv16");
+            touch_auth(s, &a);
+        }
+        Err(_) => {
+            witness!(true, "err");
+        }
+    }
+}
+
+pub fn ipv6_header_slice() {
+    let t = Tight::<48>::new(any_le(48));
+    let s = t.slice();
+    match Ipv6HeaderSlice::from_slice(s) {
+        Ok(h) => {
+            witness!(true, "ok");
+            touch_ipv6_header(s, &h);
+        }
+        Err(_) => {
+            witness!(true, "err");
+        }
+    }
+    match Ipv6Header::from_slice(s) {
+        Ok((_h, rest)) => {
+            within!(s, rest);
+        }
+        Err(_) => {}
+    }
+}
+
+pub fn raw_ext_slice() {
+    let t = Tight::<32>::new(any_le(32));
+    let s = t.slice();
+    match Ipv6RawExtHeaderSlice::from_slice(s) {
+        Ok(r) => {
+            witness!(r.slice().len() == 24, "ok_len24");
+            touch_raw_ext(s, &r);
+        }
+        Err(_) => {
+            witness!(true, "err");
+        }
+    }
+    match Ipv6FragmentHeaderSlice::from_slice(s) {
+        Ok(f) => touch_frag(s, &f),
+        Err(_) => {}
+    }
+    match Ipv6FragmentHeader::from_slice(s) {
+        Ok((_f, rest)) => {
+            within!(s, rest);
+        }
+        Err(_) => {}
+    }
+}
+
+/// strict extension chain decoding + iteration to exhaustion
+pub fn ipv6_exts_strict() {
+    let t = Tight::<32>::new(any_le(32));
+    let s = t.slice();
+    let start = IpNumber(any());
+    match Ipv6ExtensionsSlice::from_slice(start, s) {
+        Ok((e, _n, rest)) => {
+            within!(s, rest);
+            let n = touch_ipv6_exts(s, &e);
+            witness!(n >= 3, "ok_three_headers");
+            // the chain and the rest tile the input
+            assert!(e.slice().len() + rest.len() == s.len());
+        }
+        Err(_) => {
+            witness!(true, "err");
+        }
+    }
+}
+
+/// lax extension chain decoding + iteration to exhaustion (the result may have stopped early)
+pub fn ipv6_exts_lax() {
+    let t = Tight::<32>::new(any_le(32));
+    let s = t.slice();
+    let start = IpNumber(any());
+    let (e, _n, rest, err) = Ipv6ExtensionsSlice::from_slice_lax(start, s);
+    within!(s, rest);
+    let n = touch_ipv6_exts(s, &e);
+    witness!(err.is_some() && n >= 1, "stopped_after_a_header");
+    witness!(err.is_none() && n >= 2, "complete_two_headers");
+    assert!(e.slice().len() + rest.len() == s.len());
+    core::mem::forget(err);
+}
+
+pub fn ipv6_slice() {
+    let t = Tight::<64>::new(any_le(64));
+    let s = t.slice();
+    let lax: bool = any();
+    let r = if lax { Ipv6Slice::from_slice_lax(s) } else { Ipv6Slice::from_slice(s) };
+    match r {
+        Ok(ip) => {
+            witness!(!lax && !ip.extensions().is_empty() && ip.payload().payload.len() > 0, "ok_exts_payload");
+            witness!(lax && ip.payload().len_source == LenSource::Slice, "lax_slice_len");
+            touch_ipv6_header(s, &ip.header());
+            touch_ipv6_exts(s, ip.extensions());
+            touch_ip_payload(s, ip.payload());
+            sink(ip.is_payload_fragmented());
+        }
+        Err(_) => {
+            witness!(true, "err");
+        }
+    }
+}
+
+pub fn lax_ipv6_slice() {
+    let t = Tight::<64>::new(any_le(64));
+    let s = t.slice();
+    match LaxIpv6Slice::from_slice(s) {
+        Ok((ip, stop)) => {
+            witness!(stop.is_some() && !ip.extensions().is_empty(), "ok_stop_after_ext");
+            witness!(ip.payload().incomplete, "ok_incomplete");
+            touch_ipv6_header(s, &ip.header());
+            touch_ipv6_exts(s, ip.extensions());
+            touch_lax_ip_payload(s, ip.payload());
+            sink(ip.is_payload_fragmented());
+            core::mem::forget(stop);
+        }
+        Err(_) => {
+            witness!(true, "err");
+        }
+    }
+}
+
+pub fn ip_slice() {
+    let t = Tight::<64>::new(any_le(64));
+    let s = t.slice();
+    match IpSlice::from_slice(s) {
+        Ok(ip) => {
+            witness!(ip.ipv4().is_some(), "ok_v4");
+            witness!(ip.ipv6().is_some(), "ok_v6");
+            match &ip {
+                IpSlice::Ipv4(v4) => {
+                    touch_ipv4_header(s, &v4.header());
+                    if let Some(a) = v4.extensions().auth {
+                        touch_auth(s, &a);
+                    }
+                }
+                IpSlice::Ipv6(v6) => {
+                    touch_ipv6_header(s, &v6.header());
+                    touch_ipv6_exts(s, v6.extensions());
+                }
+            }
+            touch_ip_payload(s, ip.payload());
+            sink(ip.payload_ip_number());
+            sink(ip.is_fragmenting_payload());
+            sink(ip.source_addr());
+            sink(ip.destination_addr());
+            let _ = ip.header();
+        }
+        Err(_) => {
+            witness!(true, "err");
+        }
+    }
+}
+
+pub fn lax_ip_slice() {
+    let t = Tight::<64>::new(any_le(64));
+    let s = t.slice();
+    match LaxIpSlice::from_slice(s) {
+        Ok((ip, stop)) => {
+            witness!(ip.ipv4().is_some() && stop.is_some(), "ok_v4_stop");
+            witness!(ip.ipv6().is_some() && stop.is_some(), "ok_v6_stop");
+            match &ip {
+                LaxIpSlice::Ipv4(v4) => {
+                    touch_ipv4_header(s, &v4.header());
+                    if let Some(a) = v4.extensions().auth {
+                        touch_auth(s, &a);
+                    }
+                }
+                LaxIpSlice::Ipv6(v6) => {
+                    touch_ipv6_header(s, &v6.header());
+                    touch_ipv6_exts(s, v6.extensions());
+                }
+            }
+            touch_lax_ip_payload(s, ip.payload());
+            sink(ip.payload_ip_number());
+            sink(ip.is_fragmenting_payload());
+            sink(ip.source_addr());
+            sink(ip.destination_addr());
+            core::mem::forget(stop);
+        }
+        Err(_) => {
+            witness!(true, "err");
+        }
+    }
+}
+
 crate::harnesses! {
     c01_eth2_header_slice = eth2_header_slice; unwind 4,
     c01_eth2_slice = eth2_slice; unwind 4,
@@ -376,4 +764,17 @@ crate::harnesses! {
     c01_sll_from_bytes = sll_from_bytes; unwind 4,
     c01_arp_slice = arp_slice; unwind 40,
     c01_link_readers = link_readers; unwind 24,
+    c01_ipv4_header_slice = ipv4_header_slice; unwind 4,
+    c01_ipv4_slice = ipv4_slice; unwind 4,
+    c01_lax_ipv4_slice = lax_ipv4_slice; unwind 4,
+    c01_ipv4_exts = ipv4_exts; unwind 4,
+    c01_auth_slice = auth_slice; unwind 4,
+    c01_ipv6_header_slice = ipv6_header_slice; unwind 4,
+    c01_raw_ext_slice = raw_ext_slice; unwind 4,
+    c01_ipv6_exts_strict = ipv6_exts_strict; unwind 6,
+    c01_ipv6_exts_lax = ipv6_exts_lax; unwind 6,
+    c01_ipv6_slice = ipv6_slice; unwind 5,
+    c01_lax_ipv6_slice = lax_ipv6_slice; unwind 5,
+    c01_ip_slice = ip_slice; unwind 5,
+    c01_lax_ip_slice = lax_ip_slice; unwind 5,
 }
